@@ -219,7 +219,7 @@ theorem eat_snoc_iff (d : List String) : ∀ {tree : ETree}, wfEntries tree → 
       | some y =>
         cases y with
         | file b => simp [hx] at hs
-        | symlink => simp [hx] at hs
+        | symlink t => simp [hx] at hs
         | dir sub =>
           simp only [hx] at hs
           have hm := (elookup_iff hwf).mp hx
@@ -248,7 +248,7 @@ theorem ownAt_spec (hwf : wfEntries tree) (dir : List String) (name : String) (c
     cases y with
     | file b => exact .sibling ((eat_snoc_iff dir hwf _ _).mpr ⟨es, hs, hsib⟩)
     | dir sub => exact .siblingDir ((eat_snoc_iff dir hwf _ _).mpr ⟨es, hs, hsib⟩)
-    | symlink =>
+    | symlink t =>
       refine .self ?_ ?_
       · intro b hb
         obtain ⟨es', hs', hl'⟩ := (eat_snoc_iff dir hwf _ _).mp hb
@@ -275,14 +275,11 @@ theorem mem_licWalkNode : ∀ (n : ENode) (path : List String) (name : String) (
           simp at hm; obtain ⟨rfl, _⟩ := hm
           simp [hh]
         | dir hm _ _ => simp at hm
-  | .symlink, path, name, q => by
+        | linkFile hm _ => simp at hm
+        | linkDir hm _ _ => simp at hm
+  | .symlink t, path, name, q => by
       simp only [licWalkNode]
-      constructor
-      · intro h; cases h
-      · rintro ⟨rel, rfl, hc⟩
-        cases hc with
-        | file hm _ => simp at hm
-        | dir hm _ _ => simp at hm
+      exact mem_licWalkLink t path name q
   | .dir cs, path, name, q => by
       simp only [licWalkNode]
       constructor
@@ -299,6 +296,55 @@ theorem mem_licWalkNode : ∀ (n : ENode) (path : List String) (name : String) (
           simp at hm; obtain ⟨rfl, rfl⟩ := hm
           simp only [hh, Bool.false_eq_true, if_false]
           exact (mem_licWalkList _ _ _).mpr ⟨_, by simp, hsub⟩
+        | linkFile hm _ => simp at hm
+        | linkDir hm _ _ => simp at hm
+theorem mem_licWalkLink : ∀ (t : LinkTarget) (path : List String) (name : String) (q : List String),
+    q ∈ licWalkLink path name t ↔ ∃ rel, q = path ++ rel ∧ LicIn [(name, .symlink t)] rel
+  | .dangling, path, name, q => by
+      simp only [licWalkLink]
+      constructor
+      · intro h; cases h
+      · rintro ⟨rel, rfl, hc⟩
+        cases hc with
+        | file hm _ => simp at hm
+        | dir hm _ _ => simp at hm
+        | linkFile hm _ => simp at hm
+        | linkDir hm _ _ => simp at hm
+  | .file b, path, name, q => by
+      simp only [licWalkLink]
+      constructor
+      · intro h
+        split at h
+        · cases h
+        · rename_i hh
+          simp at h; subst h
+          exact ⟨[name], rfl, .linkFile (b := b) (by simp) (by simpa using hh)⟩
+      · rintro ⟨rel, rfl, hc⟩
+        cases hc with
+        | file hm _ => simp at hm
+        | dir hm _ _ => simp at hm
+        | linkFile hm hh =>
+          simp at hm; obtain ⟨rfl, _⟩ := hm
+          simp [hh]
+        | linkDir hm _ _ => simp at hm
+  | .dir cs, path, name, q => by
+      simp only [licWalkLink]
+      constructor
+      · intro h
+        split at h
+        · cases h
+        · rename_i hh
+          obtain ⟨rel, rfl, hc⟩ := (mem_licWalkList cs (path ++ [name]) q).mp h
+          exact ⟨name :: rel, by simp, .linkDir (by simp) (by simpa using hh) hc⟩
+      · rintro ⟨rel, rfl, hc⟩
+        cases hc with
+        | file hm _ => simp at hm
+        | dir hm _ _ => simp at hm
+        | linkFile hm _ => simp at hm
+        | linkDir hm hh hsub =>
+          simp at hm; obtain ⟨rfl, rfl⟩ := hm
+          simp only [hh, Bool.false_eq_true, if_false]
+          exact (mem_licWalkList _ _ _).mpr ⟨_, by simp, hsub⟩
 theorem mem_licWalkList : ∀ (cs : List (String × ENode)) (path : List String) (q : List String),
     q ∈ licWalkList path cs ↔ ∃ rel, q = path ++ rel ∧ LicIn cs rel
   | [], path, q => by
@@ -307,6 +353,8 @@ theorem mem_licWalkList : ∀ (cs : List (String × ENode)) (path : List String)
       cases hc with
       | file hm _ => cases hm
       | dir hm _ _ => cases hm
+      | linkFile hm _ => cases hm
+      | linkDir hm _ _ => cases hm
   | (n, x) :: rest, path, q => by
       simp only [licWalkList, List.mem_append]
       rw [mem_licWalkNode x path n q, mem_licWalkList rest path q]
@@ -318,10 +366,16 @@ theorem mem_licWalkList : ∀ (cs : List (String × ENode)) (path : List String)
             rename_i nm b
             exact .file (b := b) (by simp at hm; simp [hm]) hh
           | dir hm hh hs => exact .dir (by simp at hm; simp [hm]) hh hs
+          | linkFile hm hh =>
+            rename_i nm b
+            exact .linkFile (b := b) (by simp at hm; simp [hm]) hh
+          | linkDir hm hh hs => exact .linkDir (by simp at hm; simp [hm]) hh hs
         · refine ⟨rel, e, ?_⟩
           cases hc with
           | file hm hh => exact .file (List.mem_cons_of_mem _ hm) hh
           | dir hm hh hs => exact .dir (List.mem_cons_of_mem _ hm) hh hs
+          | linkFile hm hh => exact .linkFile (List.mem_cons_of_mem _ hm) hh
+          | linkDir hm hh hs => exact .linkDir (List.mem_cons_of_mem _ hm) hh hs
       · rintro ⟨rel, e, hc⟩
         cases hc with
         | file hm hh =>
@@ -333,16 +387,105 @@ theorem mem_licWalkList : ∀ (cs : List (String × ENode)) (path : List String)
           rcases List.mem_cons.mp hm with h | h
           · exact .inl ⟨_, e, .dir (by rw [h]; simp) hh hs⟩
           · exact .inr ⟨_, e, .dir h hh hs⟩
+        | linkFile hm hh =>
+          rename_i nm b
+          rcases List.mem_cons.mp hm with h | h
+          · exact .inl ⟨_, e, .linkFile (b := b) (by rw [h]; simp) hh⟩
+          · exact .inr ⟨_, e, .linkFile h hh⟩
+        | linkDir hm hh hs =>
+          rcases List.mem_cons.mp hm with h | h
+          · exact .inl ⟨_, e, .linkDir (by rw [h]; simp) hh hs⟩
+          · exact .inr ⟨_, e, .linkDir h hh hs⟩
 end
 
-/-- `_find_licenses`: with a directory LICENSES in the root, the licence texts are the regular files
-    below it reached through directories, hidden names excluded at every level -/
-theorem mem_licFilesOf {cs : ETree} (hd : elookup tree "LICENSES" = some (.dir cs)) (q : Text) :
-    q ∈ licFilesOf tree ↔ ∃ rel, LicIn cs rel ∧ q = relText ("LICENSES" :: rel) := by
-  simp only [licFilesOf, hd, List.mem_map, mem_licWalkList]
+/-- `_find_licenses`: with a directory LICENSES in the root — a real one, or a symbolic link that resolves
+    to one — the licence texts are the entries `LicIn` describes -/
+theorem mem_licFilesOf' {l : ENode} {cs : ETree} (hd : elookup tree "LICENSES" = some l) (hl : DirOrLinkToDir l cs)
+    (q : Text) : q ∈ licFilesOf tree ↔ ∃ rel, LicIn cs rel ∧ q = relText ("LICENSES" :: rel) := by
+  have hp : licPathsOf tree = licWalkList ["LICENSES"] cs := by
+    rcases hl with rfl | rfl <;> simp only [licPathsOf, hd]
+  simp only [licFilesOf, hp, List.mem_map, mem_licWalkList]
   constructor
   · rintro ⟨p, ⟨rel, rfl, hl⟩, rfl⟩; exact ⟨rel, hl, rfl⟩
   · rintro ⟨rel, hl, rfl⟩; exact ⟨_, ⟨rel, rfl, hl⟩, rfl⟩
+
+/-- `_find_licenses`: with a directory LICENSES in the root, the licence texts are the regular files
+    (and links to regular files) below it reached through (real or linked) directories, hidden names
+    excluded at every level -/
+theorem mem_licFilesOf {cs : ETree} (hd : elookup tree "LICENSES" = some (.dir cs)) (q : Text) :
+    q ∈ licFilesOf tree ↔ ∃ rel, LicIn cs rel ∧ q = relText ("LICENSES" :: rel) :=
+  mem_licFilesOf' hd (.inl rfl) q
+
+/-- no directory LICENSES in the root (absent, a regular file, a dangling link, a link to a file): no licence texts -/
+theorem licFilesOf_nil (h : ∀ l, elookup tree "LICENSES" = some l → ∀ cs, ¬ DirOrLinkToDir l cs) :
+    licFilesOf tree = [] := by
+  unfold licFilesOf licPathsOf
+  cases hd : elookup tree "LICENSES" with
+  | none => rfl
+  | some l =>
+    cases l with
+    | file b => rfl
+    | dir cs => exact absurd (.inl rfl) (h _ hd cs)
+    | symlink t =>
+      cases t with
+      | dangling => rfl
+      | file b => rfl
+      | dir cs => exact absurd (.inr rfl) (h _ hd cs)
+
+/-- the two readings of "licence text below this directory" agree: the recursive one (`LicIn`, the form
+    the walk is characterised with) and the entry-by-entry one (`LinkedText`) -/
+theorem licIn_iff_linkedText : ∀ (rel : List String) (cs : ETree), LicIn cs rel ↔ LinkedText cs rel := by
+  intro rel
+  induction rel with
+  | nil =>
+    intro cs
+    constructor
+    · intro h; cases h
+    · rintro ⟨n, h, _⟩; cases h
+  | cons name rel ih =>
+    intro cs
+    constructor
+    · intro h
+      generalize hq : name :: rel = q at h
+      cases h with
+      | file hm hh =>
+        obtain ⟨rfl, rfl⟩ := List.cons.inj hq
+        exact ⟨_, .last hm, .inl ⟨_, rfl⟩, by simpa using hh⟩
+      | linkFile hm hh =>
+        obtain ⟨rfl, rfl⟩ := List.cons.inj hq
+        exact ⟨_, .last hm, .inr ⟨_, rfl⟩, by simpa using hh⟩
+      | dir hm hh hs =>
+        obtain ⟨rfl, rfl⟩ := List.cons.inj hq
+        obtain ⟨n, hat, hf, hhid⟩ := (ih _).mp hs
+        exact ⟨n, .step hm (.inl rfl) hat, hf, by
+          intro x hx
+          rcases List.mem_cons.mp hx with rfl | hx
+          · exact hh
+          · exact hhid x hx⟩
+      | linkDir hm hh hs =>
+        obtain ⟨rfl, rfl⟩ := List.cons.inj hq
+        obtain ⟨n, hat, hf, hhid⟩ := (ih _).mp hs
+        exact ⟨n, .step hm (.inr rfl) hat, hf, by
+          intro x hx
+          rcases List.mem_cons.mp hx with rfl | hx
+          · exact hh
+          · exact hhid x hx⟩
+    · rintro ⟨n, hat, hf, hhid⟩
+      generalize hq : name :: rel = q at hat
+      cases hat with
+      | last hm =>
+        obtain ⟨rfl, rfl⟩ := List.cons.inj hq
+        have hh := hhid name (by simp)
+        rcases hf with ⟨b, rfl⟩ | ⟨b, rfl⟩
+        · exact .file hm hh
+        · exact .linkFile hm hh
+      | step hm hd hat' =>
+        obtain ⟨rfl, rfl⟩ := List.cons.inj hq
+        have hh := hhid name (by simp)
+        have hs := (ih _).mpr ⟨n, hat', hf, fun x hx => hhid x (List.mem_cons_of_mem _ hx)⟩
+        rcases hd with rfl | rfl
+        · exact .dir hm hh hs
+        · exact .linkDir hm hh hs
 
 /-- an `override` means the own source is not consulted: the attribution is the same whatever the
     file (or its sibling) holds and whether or not it is binary -/
